@@ -89,6 +89,29 @@ LITERALS = ['"plain"', '""', '"a""b"', '"a\\"b"', '"t\\tn\\nr\\rb\\\\q"', '"\\a\
             "2 + 3 * ii", "-1.5", "-0.0", "- 7", "1e5", "12345678901234567890.0"]
 
 
+MISC = [
+    "a = 1, b = 2, c = a + b, print a b c;",
+    "let a = 1; let b = a; do nop; print a b;",
+    "for i in 1 to 10 step 3 asc loop print i; end loop; for i in 10 to 1 step 2 desc loop print i; end loop;",
+    "t = tab(3, 0); forall e in t desc loop e = 1; end loop; forall e in t asc loop print e; end loop;",
+    'begin raise e1; exception when e1 then print "1" error@1; when e2 then print "2"; when others then print "o"; end;',
+    'begin begin x = 1 / 0; exception when out_of_range then print "r"; end; exception when divide_by_zero then print error@2; end;',
+    'if 1 > 2 then print "a"; elsif 2 > 3 then print "b"; elsif 3 > 2 then print "c"; else print "d"; end if;',
+    "n = 0; while n < 3 loop n = n + 1, print n; if n == 2 then continue; end if; put n; put \"-\"; end loop; print \"\";",
+    'trace false; print "t";',
+    "function f() return integer is begin return 1; end; function f(a) return integer is begin return 2; end; print f() f(0);",
+    "function g(n) return integer is begin if n < 1 then return 0; end if; return n + g(n - 1); end; print g(4);",
+    'function h(s:string) return string is begin s.concat("!"); return s; end; print h("x");',
+    "return 5;", 'return "s";', "return;", "x = 1; return x + 1;",
+    'print "a" "b" 1 2.5 true null;', 'put "a" 1; put 2.5; print "";',
+    "x = tab(2, tab(2, tup(1, \"a\")));  print x.at(1).at(0)@2;",
+    "$s = 1; $s = $s + 1; print $s;",
+    'r = tup(1, "a", 2.5, true, raw("b"), ii); r.set@1(2).set@2("b"); print r@1 r@2 r.count();',
+    "b = raw(3, 65); b.put(0, 66).concat(67).insert(0, 68).delete(1); print b.count() b.at(0);",
+    "x = null; x:integer; x = int(); y = num(); z = str(); w = raw(); v = bool(); u = tup(); t = tab(); print isnull(x) isnull(t);",
+]
+
+
 def corpus(tier):
     for s in c01.SEEDS:
         yield "seed", "", s
@@ -130,27 +153,7 @@ def corpus(tier):
         yield "func-type", "", "function ft(a:%s) return %s is begin return a; end; print isnull(ft(null));" % (t, t if t != "bytes" else "bytes")
         for t2 in types[1:4]:
             yield "func-type", "", "function ft(a:%s, b, c:%s) return %s is begin return c; end; print isnull(ft(null, 1, null));" % (t, t2, t2)
-    misc = [
-        "a = 1, b = 2, c = a + b, print a b c;",
-        "let a = 1; let b = a; do nop; print a b;",
-        "for i in 1 to 10 step 3 asc loop print i; end loop; for i in 10 to 1 step 2 desc loop print i; end loop;",
-        "t = tab(3, 0); forall e in t desc loop e = 1; end loop; forall e in t asc loop print e; end loop;",
-        'begin raise e1; exception when e1 then print "1" error@1; when e2 then print "2"; when others then print "o"; end;',
-        'begin begin x = 1 / 0; exception when out_of_range then print "r"; end; exception when divide_by_zero then print error@2; end;',
-        'if 1 > 2 then print "a"; elsif 2 > 3 then print "b"; elsif 3 > 2 then print "c"; else print "d"; end if;',
-        "n = 0; while n < 3 loop n = n + 1, print n; if n == 2 then continue; end if; put n; put \"-\"; end loop; print \"\";",
-        'trace false; print "t";',
-        "function f() return integer is begin return 1; end; function f(a) return integer is begin return 2; end; print f() f(0);",
-        "function g(n) return integer is begin if n < 1 then return 0; end if; return n + g(n - 1); end; print g(4);",
-        'function h(s:string) return string is begin s.concat("!"); return s; end; print h("x");',
-        "return 5;", 'return "s";', "return;", "x = 1; return x + 1;",
-        'print "a" "b" 1 2.5 true null;', 'put "a" 1; put 2.5; print "";',
-        "x = tab(2, tab(2, tup(1, \"a\")));  print x.at(1).at(0)@2;",
-        "$s = 1; $s = $s + 1; print $s;",
-        'r = tup(1, "a", 2.5, true, raw("b"), ii); r.set@1(2).set@2("b"); print r@1 r@2 r.count();',
-        "b = raw(3, 65); b.put(0, 66).concat(67).insert(0, 68).delete(1); print b.count() b.at(0);",
-        "x = null; x:integer; x = int(); y = num(); z = str(); w = raw(); v = bool(); u = tup(); t = tab(); print isnull(x) isnull(t);",
-    ]
+    misc = MISC
     for m in misc:
         yield "misc", "", m
     # module objects: constructors (every arity), methods, object arguments, chains, objects in containers and function results
